@@ -216,8 +216,8 @@ def carry1(prog: Program) -> RuleResult:
 def carry_abandon(prog: Program) -> RuleResult:
     """A marker (boolean field) that a generator raises before a yield and lowers after it stays raised when the consumer abandons the
     iterator at that yield. Such a marker must also be lowered when the next evaluation starts (in the reset hook that runs for the
-    class). Transient *collections* filled before a yield and cleared after it (the selectors' _conclusion_) have the same shape; I could
-    not produce a wrong result from one in 60 abandoned evaluations, so they are not part of the rule (DESIGN.md, limits)."""
+    class). Transient *collections* filled before a yield and cleared after it (the selectors' _conclusion_) have the same shape and are
+    judged the same way (second part)."""
     r = RuleResult("CARRY-ABANDON", "markers raised around a yield are also lowered when an evaluation starts", floor=1)
     se = prog.cls(SE)
     from .c01 import concrete_classes
@@ -272,6 +272,49 @@ def carry_abandon(prog: Program) -> RuleResult:
                     "also lowered by the reset hook that runs when an evaluation starts",
                     f"{f.short} raises self.{fl} before a yield and lowers it afterwards; an iterator abandoned at that yield leaves it raised, and nothing lowers it when the next "
                     f"evaluation of {sorted(set(uncovered))} starts: the next evaluation begins with the state of the abandoned one")
+    # transient *collections* have the same shape: filled for one result, cleared after the yield that hands the result on (the selected
+    # conclusions of a rule selector).  Abandoned at that yield, the collection keeps the entries of the last result, and the first result of
+    # the next evaluation is produced with them in force next to its own - which of the two wins is left to the iteration order of a set.
+    for f in sorted(ev, key=lambda x: x.qual):
+        cfg = CFG(f.node)
+        yields = [n for n in cfg.nodes if n.stmt is not None and n.kind == "stmt" and any(isinstance(x, (ast.Yield, ast.YieldFrom)) for x in ast.walk(n.stmt))]
+        clears = {}
+        for n in cfg.nodes:
+            if n.stmt is None or n.kind != "stmt":
+                continue
+            for c_ in calls_in(n.stmt):
+                if isinstance(c_.func, ast.Attribute) and c_.func.attr == "clear" and is_self_attr(c_.func.value):
+                    clears.setdefault(c_.func.value.attr, []).append(n)
+        for fl in sorted(clears):
+            after_yield = any(cl.id in cfg.reachable(y.id) for y in yields for cl in clears[fl])
+            if not after_yield:
+                continue
+            key = f"{f.short}#{fl}"
+            if key in seen:
+                continue
+            seen.add(key)
+            uncovered = []
+            for c in concrete:
+                if f.cls.qual not in prog.mro(c.qual) or prog.lookup(c.qual, f.name) is not f:
+                    continue
+                hook = prog.lookup(c.qual, "_reset_evaluation_state_")
+                ok = False
+                if hook is not None:
+                    from ..callgraph import self_closure
+
+                    for g in self_closure(prog, c.qual, hook, False)[0]:
+                        for x in walk_local(g.node):
+                            if isinstance(x, ast.Call) and isinstance(x.func, ast.Attribute) and x.func.attr == "clear" and is_self_attr(x.func.value, fl):
+                                ok = True
+                            if isinstance(x, ast.Assign) and any(is_self_attr(t, fl) for t in x.targets) and (isinstance(x.value, (ast.Set, ast.List, ast.Dict)) or (isinstance(x.value, ast.Call) and call_name(x.value) in ("set", "list", "dict"))):
+                                ok = True
+                if not ok:
+                    uncovered.append(c.name)
+            r.check(not uncovered, key, site(f, clears[fl][0].stmt), f"self.{fl} is cleared after a yield",
+                    "also cleared by the reset hook that runs when an evaluation starts",
+                    f"{f.short} clears self.{fl} only after the yield that hands a result on; an iterator abandoned there leaves the entries of its last result in it, and nothing clears them "
+                    f"when the next evaluation of {sorted(set(uncovered))} starts: its first result is produced with the leftover in force as well (a stale conclusion is applied - "
+                    "an extra inferred instance is constructed, and which conclusion wins depends on the iteration order of the set)")
     return r
 
 
@@ -720,6 +763,9 @@ def _live_view_of(e: ast.AST, fields: Set[str]) -> Optional[str]:
                     return v
             return None
         if isinstance(e.func, ast.Attribute) and e.func.attr in ("values", "items", "keys") and not e.args:
+            return _live_view_of(e.func.value, fields)
+        # self.F.get(k, default) / self.F.setdefault(k, default): the element stored under k, like self.F[k]
+        if isinstance(e.func, ast.Attribute) and e.func.attr in ("get", "setdefault") and e.args:
             return _live_view_of(e.func.value, fields)
         return None
     if isinstance(e, ast.Subscript) and not isinstance(e.slice, ast.Slice):
